@@ -86,7 +86,7 @@ prop("C14",
      assumptions=DISP_ASSUME,
      residual="cell contents via text re-entry; row/column descriptor sizes and styles (insert/delete fragments not yet under contract)")
 prop("C15",
-     units=["refshift", "refarms", "strenv", "dispsites", "movecols", "modelatomic"],
+     units=["refshift", "refarms", "strenv", "dispsites", "movecols", "modelatomic", "colshift"],
      level="proof",
      claim="RowMove/ColumnMove arms of the reference rewriter, CF corner maps and link-key maps all equal move1, which has an inverse (lemma_move1_inverse): a single move is a permutation of the axis and references follow their cells",
      assumptions=DISP_ASSUME,
